@@ -1084,10 +1084,20 @@ package argmapper
 //@   ensures [never-fails] result == nil
 //@   ensures [struct-form-every-value-read-from-its-own-field] imp(vs != nil && vs.structType != nil && !vs.isLifted, forall(j, int, imp(0 <= j && j < len(vs.values), vs.values[j].Value == vfield(values[0], vs.values[j].index))))
 //@   ensures [entries-and-labels-kept] imp(vs != nil, len(vs.values) == old(len(vs.values)) && forall(j, int, imp(0 <= j && j < len(vs.values), vs.values[j] == old(vs.values[j]) && vs.values[j].Name == old(vs.values[j].Name) && vs.values[j].Type == old(vs.values[j].Type) && vs.values[j].Subtype == old(vs.values[j].Subtype) && vs.values[j].index == old(vs.values[j].index))))
+//@   assigns  Value.Value, []reflect.Value, rvstore, rvfresh
+//@   modifies forall(x, *Value, vs != nil && exists(j, int, 0 <= j && j < len(vs.values) && vs.values[j] == x))
 //@   loop 2 invariant vs != nil && vsSlots(vs) && kindof(vs.structType) == 25 && valid(structVal) && rtypeof(structVal) == vs.structType && forall(j, int, imp(0 <= j && j < len(vs.values), 0 <= vs.values[j].index && vs.values[j].index < numField(vs.structType)))
 //@   loop 2 invariant len(vs.values) == old(len(vs.values)) && forall(j, int, imp(0 <= j && j < len(vs.values), vs.values[j] == old(vs.values[j]) && vs.values[j].Name == old(vs.values[j].Name) && vs.values[j].Type == old(vs.values[j].Type) && vs.values[j].Subtype == old(vs.values[j].Subtype) && vs.values[j].index == old(vs.values[j].index)))
 //@   loop 2 invariant forall(j, int, imp(0 <= j && j < idx2, vs.values[j].Value == vfield(structVal, vs.values[j].index)))
 //@   loop 2 invariant imp(!vs.isLifted, structVal == old(values)[0])
+// FromResult: an error result is handed back and nothing is loaded; otherwise the outputs are loaded as a signature (C15)
+//@ func (*ValueSet).FromResult
+//@   requires vs != nil && (len(r.out) == 0 || valid(lastOut(r))) && imp(vs.structPointers > 0, len(r.out) >= 1)
+//@   requires vs.structType == nil || (vsSlots(vs) && !vs.isLifted && kindof(vs.structType) == 25 && imp(vs.structPointers == 0, len(r.out) >= 1 && valid(r.out[0]) && rtypeof(r.out[0]) == vs.structType) && forall(j, int, imp(0 <= j && j < len(vs.values), 0 <= vs.values[j].index && vs.values[j].index < numField(vs.structType))))
+//@   ensures [resolution-error-returned] imp(r.buildErr != nil, result == r.buildErr)
+//@   ensures [final-error-returned] imp(r.buildErr == nil && len(r.out) > 0, result == errOf(lastOut(r)))
+//@   ensures [error-means-nothing-loaded] imp(result != nil, forall(j, int, imp(0 <= j && j < len(vs.values), vs.values[j].Value == old(vs.values[j].Value))))
+//@   ensures [struct-form-loaded-from-the-first-output] imp(r.buildErr == nil && len(r.out) > 0 && errOf(lastOut(r)) == nil && vs.structType != nil && vs.structPointers == 0, result == nil && forall(j, int, imp(0 <= j && j < len(vs.values), vs.values[j].Value == vfield(r.out[0], vs.values[j].index))))
 //@ func (*ValueSet).TypedSubtype
 //@   requires vs != nil && forall(j, int, imp(0 <= j && j < len(vs.values), vs.values[j] != nil))
 //@   ensures [exact-type-and-subtype] imp(result != nil, result.Type == t && result.Subtype == st && exists(j, int, 0 <= j && j < len(vs.values) && vs.values[j] == result))
